@@ -320,7 +320,8 @@ func ruleC15Wrappers(c *Ctx, r *R) {
 					contGen, iterGen = cg, ig
 				}
 			}
-			instrs(fn, func(b *ssa.BasicBlock, i int, in ssa.Instruction) {
+			for _, d := range deepInstrs(fn, 2) { // the literal may be built by a constructor helper
+				in := d.in
 				if st, ok := in.(*ssa.Store); ok {
 					if _, f, ok := storedField(st.Addr); ok && f == iterGen {
 						if ld, ok := resolveVal(st.Val).(*ssa.UnOp); ok {
@@ -330,7 +331,7 @@ func ruleC15Wrappers(c *Ctx, r *R) {
 						}
 					}
 				}
-			})
+			}
 			if !snap {
 				bad = "iterator is created without a snapshot of d.gen"
 			}
